@@ -39,7 +39,21 @@ Body == CASE path = "streamed" -> "select " \o ColsText \o " from '.'"
           [] path = "aggregate" -> "select count(*), max(size), 'te<x>t & \"q\", z' from '.'"
           [] path = "grouped" -> "select name, count(*) from '.' group by name"
 NC == CASE path = "aggregate" -> 3 [] path = "grouped" -> 2 [] ncols = 10 -> 1 [] ncols = 45 -> 2 [] OTHER -> ncols
-Scenario == [prop |-> "C09", class |-> fmt \o "/" \o path, world |-> World(wi), fmt |-> fmt, path |-> path, ncols |-> NC,
+(* the Display text of each column's expression (what the JSON writer model keys a value by), as characters *)
+KName == <<"N","a","m","e">>
+KSize == <<"S","i","z","e">>
+KExt == <<"E","x","t","e","n","s","i","o","n">>
+RECURSIVE KRep(_)
+KRep(n) == IF n = 0 THEN <<>> ELSE <<",", " ">> \o KName \o KRep(n - 1)
+Keys == CASE path = "aggregate" -> << <<"C","o","u","n","t","(","*",")">>, <<"M","a","x","(">> \o KSize \o <<")">>,
+                                      <<"t","e","<","x",">","t"," ","&"," ","\"","q","\"",","," ","z">> >>
+          [] path = "grouped" -> << KName, <<"C","o","u","n","t","(","*",")">> >>
+          [] ncols = 45 -> << KName, <<"C","o","n","c","a","t","(">> \o KName \o KRep(44) \o <<")">> >>
+          [] ncols = 10 -> << KExt >>
+          [] ncols = 1 -> << KName >>
+          [] ncols = 3 -> << KName, KSize, KExt >>
+          [] ncols = 6 -> << KName, KSize, KExt, <<"I","s","F","i","l","e">>, <<"M","o","d","e">>, <<"P","a","t","h">> >>
+Scenario == [prop |-> "C09", keys |-> Keys, class |-> fmt \o "/" \o path, world |-> World(wi), fmt |-> fmt, path |-> path, ncols |-> NC,
              env |-> [tz |-> "UTC", cwd |-> 0],
              runs |-> << [tag |-> "list", fmt |-> "chars", argv |-> << Body \o " into list" >>],
                          [tag |-> "f", fmt |-> "chars", argv |-> << Body \o " into " \o fmt >>] >>]
